@@ -879,7 +879,8 @@ func (h *nodeHist) finish() {
 	}
 }
 
-// ---- deterministic reproduction of the liquidity finding on the real node, every run:
+// ---- the scenario of the defect fixed in /repo a732e8e, on the real node, every run (a revert of the fix fails the
+// oracle liquidity-cursor-rewards-every-epoch-it-passes):
 // 10-minute epochs, nobody calls Update until 12 epochs are due, then one Update
 func liquidityLateUpdate(out *Out) {
 	rng := rand.New(rand.NewSource(11))
